@@ -120,11 +120,38 @@ func genVal(t *rapid.T) valCase {
 	for _, f := range s.Fields {
 		v[f.Name] = gen.FieldVal(t, f)
 	}
+	if name == "DeviceTimeAns" && rapid.Bool().Draw(t, "subresolution") {
+		// a time between two 1/256 s steps: the wire value must be within one step of it
+		v["TimeSinceGPSEpoch"] += int64(rapid.IntRange(1, 3906249).Draw(t, "ns"))
+	}
 	return valCase{Name: name, Vals: v, RFU: gen.Bytes(t, "rfu", s.Len)}
 }
 
 func checkVal(c valCase) evid.Outcome {
 	s := ref.SpecByName(c.Name)
+	if t := c.Vals["TimeSinceGPSEpoch"]; c.Name == "DeviceTimeAns" && t%3906250 != 0 && t > 0 && t < (1<<32-2)*1e9 {
+		// not on the 1/256 s raster: the specification does not fix the rounding mode, so any wire value within one
+		// step of the time is accepted (truncation, or rounding with a carry into the seconds)
+		p := gen.NewPayload[s.Name]()
+		if !gen.Fill(p, c.Vals) {
+			return evid.Outcome{Skip: true}
+		}
+		lb, err := p.MarshalBinary()
+		if err != nil {
+			return evid.Fail("DeviceTimeAns: encoder refuses %d ns: %v", t, err)
+		}
+		got, err := s.Decode(lb)
+		if err != nil {
+			return evid.Fail("DeviceTimeAns: %d ns encodes to %x: %v", t, lb, err)
+		}
+		if d := got["TimeSinceGPSEpoch"] - t; d <= -3906250 || d >= 3906250 {
+			return evid.Fail("DeviceTimeAns: %d ns encodes to %x, which stands for %d ns: off by %d ns, more than the 1/256 s resolution", t, lb, got["TimeSinceGPSEpoch"], d)
+		}
+		return evid.Outcome{NonTrivial: true, Class: s.Name + "/between-steps"}
+	}
+	if c.Name == "DeviceTimeAns" && c.Vals["TimeSinceGPSEpoch"]%3906250 != 0 {
+		return evid.Outcome{Skip: true} // off-raster value at the very end of the range: carry could overflow, not judged
+	}
 	wb, err := s.Encode(c.Vals)
 	if err != nil {
 		return evid.Outcome{Skip: true}
